@@ -434,6 +434,9 @@ func (env *Env) lookupSSA(name string) *Val {
 		for _, in := range b.Instrs {
 			if d, ok := in.(*ssa.DebugRef); ok {
 				if id, ok := d.Expr.(*ast.Ident); ok && id.Name == name {
+					if fv, ok := d.Object().(*types.Var); ok && fv.IsField() {
+						continue // the field name of a selector expression x.name, not a variable called name
+					}
 					if d.IsAddr {
 						addrOf = d.X
 						continue
